@@ -16,7 +16,7 @@ pub fn run(ctx: &Ctx) -> i32 {
             fns: if force { vec![crate::valchk::VFn::Utf8ValidUpTo] } else { C14_FNS.to_vec() },
             max_len: ctx.tier.pick(160, 320),
             aligns: if thorough { (0..16).collect() } else { vec![0, 1, 7, 15] },
-            two_defects: thorough,
+            two_defects: true,
             random_per_fn: ctx.n(40_000, 1_500_000),
             max_tokens: ctx.tier.pick(14, 40),
             force_scalar: force,
